@@ -104,6 +104,10 @@ def run(check, prog):
     writer_table(check, prog)
     xarray_map(check, prog)
     template_class(check, prog)
+    # a scatterer rebuilt from its parameters shares no remembered state with the
+    # template it was built from (shared with C19)
+    from . import c19
+    c19.scatterer_no_memo(check, prog)
     # "applies the transformations": a derived prior must denote the arithmetic
     # that was written (shared rule with C14)
     from . import c14
